@@ -37,7 +37,7 @@ type PoolCase struct {
 	Sizes   []int    `json:"sizes"`
 	Seed    int64    `json:"seed"`
 	MaxBufs int      `json:"max_bufs"`
-	PMath   []int    `json:"pmath"` // values for which ceil/floor/class are reported
+	PMath   []int    `json:"pmath"`  // values for which ceil/floor/class are reported
 	Stress  int      `json:"stress"` // > 0: concurrent Get/Put by 8 goroutines for this many milliseconds (ownership oracle only)
 }
 
